@@ -40,6 +40,7 @@ type Options struct {
 	Watchdog    time.Duration
 	GenesisBal  string
 	LogToStderr bool
+	NoRouter    bool // do not feed executed blocks to the router monitor
 }
 
 // Key is a deterministic secp256k1 account.
@@ -91,6 +92,18 @@ type Replica struct {
 
 	blockCh chan events.ExecutedEvent
 	closed  bool
+
+	// router monitor (see router.go): findings accumulate until a workload takes them
+	routerMon      *RouterMon
+	RouterFindings []RouterFinding
+	RouterBlocks   int
+}
+
+// TakeRouterFindings returns and clears the router monitor's findings.
+func (r *Replica) TakeRouterFindings() []RouterFinding {
+	f := r.RouterFindings
+	r.RouterFindings = nil
+	return f
 }
 
 func (o Options) withDefaults() Options {
@@ -246,6 +259,13 @@ func (r *Replica) ExecBlockAt(h uint64, txs []pb.Transaction, ts int64, local []
 	select {
 	case ev := <-r.blockCh:
 		res := &BlockResult{Height: ev.Block.BlockHeader.Number, Block: ev.Block, Meta: ev.InterchainMeta}
+		if !r.Opts.NoRouter {
+			if r.routerMon == nil {
+				r.routerMon = newRouterMon(r)
+			}
+			r.RouterFindings = append(r.RouterFindings, r.routerMon.Check(ev.Block, ev.InterchainMeta)...)
+			r.RouterBlocks++
+		}
 		for _, tx := range txs {
 			rc, err := r.L.GetReceipt(tx.GetHash())
 			if err != nil {
